@@ -61,7 +61,7 @@ def zero_split(prog, R, fn):
     return out
 
 
-def check(ctx):
+def _check_own(ctx):
     prog = ctx.prog
     R = Roles(prog)
     io = io_effects(prog)
@@ -211,3 +211,9 @@ def check(ctx):
                           "the type signature given to the %s file open does not originate from <KT as DbMapKeyType>::signature() (%s)" % (kind, o),
                           where=where(inner_open, b))
     ctx.floor("sig-origin", "opens receiving KT::signature()", n_sig, 3)
+
+
+def check(ctx):
+    _check_own(ctx)
+    from .engine import import_rules
+    import_rules(ctx, "c02", {"open-never-destroys"})
